@@ -44,6 +44,12 @@ func (i *Inbox) Normalize(normalizers tax.Normalizers) {
 	}
 	uuid.Normalize(&i.UUID)
 	code := i.Code.String()
+	if !govalidator.IsEmail(code) && !govalidator.IsURL(code) {
+		// clean the code before checking what it looks like, so that
+		// normalizing the result again does not change it.
+		code = cbc.NormalizeCode(i.Code).String()
+		i.Code = cbc.Code(code)
+	}
 	if govalidator.IsEmail(code) {
 		i.Email = code
 		i.Code = ""
@@ -52,7 +58,6 @@ func (i *Inbox) Normalize(normalizers tax.Normalizers) {
 		i.Code = ""
 	}
 	i.Scheme = cbc.NormalizeAlphanumericalCode(i.Scheme)
-	i.Code = cbc.NormalizeCode(i.Code)
 	normalizers.Each(i)
 }
 
